@@ -249,6 +249,9 @@ func (h *FBDNSDB) ServeDNSWithRCODE(ctx context.Context, w dns.ResponseWriter, r
 				resp := v.(cacheEntry).response.Copy()
 				// SetReply sets rcode to RcodeSuccess...
 				rcode := resp.Rcode
+				// ... and leaves RD and CD alone unless the opcode is QUERY: they must not be
+				// the ones of the query that filled the entry
+				resp.RecursionDesired, resp.CheckingDisabled = false, false
 				resp.SetReply(r)
 				resp.Rcode = rcode
 				if r.IsEdns0() != nil {
